@@ -48,6 +48,7 @@ type rw struct {
 	dense   bool
 	labels  map[ast.Node]string
 	needPt  map[ast.Stmt]bool
+	inList  map[ast.Stmt]bool // statements that are direct members of a statement list
 	counts  map[string]int
 	pkgUses map[*types.PkgName]int
 	pkgRepl map[*types.PkgName]int
@@ -198,8 +199,64 @@ func (r *rw) prepass() {
 			ord++
 			r.labels[n] = fmt.Sprintf("%s:%s#%d", r.fname, fn, ord)
 		}
+		if st, ok := n.(ast.Stmt); ok && len(stack) >= 2 && lists(stack[len(stack)-2], st) {
+			r.inList[st] = true
+		}
 		return true
 	})
+}
+
+// rmwAppend recognises `x.f = append(x.f, ...)` on a struct field: a
+// read-modify-write that is one statement. Under statement-granular scheduling
+// two goroutines could never interleave inside it, so an unsynchronised update
+// of a shared slice would stay invisible; the rewrite splits the read from the
+// write with a scheduling point in between (equivalent for one goroutine, and
+// under correct locking nobody else can run in between anyway).
+func (r *rw) rmwAppend(x *ast.AssignStmt) (string, bool) {
+	if !r.dense || !r.inList[x] || x.Tok != token.ASSIGN || len(x.Lhs) != 1 || len(x.Rhs) != 1 {
+		return "", false
+	}
+	sel, ok := x.Lhs[0].(*ast.SelectorExpr)
+	if !ok || r.info.Selections[sel] == nil {
+		return "", false
+	}
+	call, ok := x.Rhs[0].(*ast.CallExpr)
+	if !ok || len(call.Args) < 2 {
+		return "", false
+	}
+	id, ok := call.Fun.(*ast.Ident)
+	if !ok || id.Name != "append" {
+		return "", false
+	}
+	if _, isb := r.info.Uses[id].(*types.Builtin); !isb {
+		return "", false
+	}
+	lhs := string(r.src[r.off(sel.Pos()):r.off(sel.End())])
+	arg0 := string(r.src[r.off(call.Args[0].Pos()):r.off(call.Args[0].End())])
+	if lhs != arg0 {
+		return "", false
+	}
+	// the receiver expression must be free of calls (evaluated twice below)
+	pure := true
+	ast.Inspect(sel.X, func(n ast.Node) bool {
+		if _, ok := n.(*ast.CallExpr); ok {
+			pure = false
+		}
+		return pure
+	})
+	if !pure {
+		return "", false
+	}
+	var args []string
+	for _, a := range call.Args[1:] {
+		args = append(args, r.render(a))
+	}
+	dots := ""
+	if call.Ellipsis.IsValid() {
+		dots = "..."
+	}
+	r.count("rmw-append")
+	return fmt.Sprintf("{ __rd := %s; simrt.Point(%q); %s = append(__rd, %s%s) }", lhs, r.label(x)+"/rmw", lhs, strings.Join(args, ", "), dots), true
 }
 
 func (r *rw) label(n ast.Node) string {
@@ -269,6 +326,9 @@ func (r *rw) rewriteNode(n ast.Node) (string, bool) {
 		}
 		return "", false
 	case *ast.AssignStmt:
+		if rep, ok := r.rmwAppend(x); ok {
+			return rep, true
+		}
 		if len(x.Lhs) == 2 && len(x.Rhs) == 1 {
 			if u, ok := isRecv(x.Rhs[0]); ok {
 				r.count("recv")
@@ -658,10 +718,11 @@ func main() {
 			srcs[full] = src
 		}
 		info := &types.Info{
-			Types:     map[ast.Expr]types.TypeAndValue{},
-			Uses:      map[*ast.Ident]types.Object{},
-			Defs:      map[*ast.Ident]types.Object{},
-			Implicits: map[ast.Node]types.Object{},
+			Types:      map[ast.Expr]types.TypeAndValue{},
+			Uses:       map[*ast.Ident]types.Object{},
+			Defs:       map[*ast.Ident]types.Object{},
+			Implicits:  map[ast.Node]types.Object{},
+			Selections: map[*ast.SelectorExpr]*types.Selection{},
 		}
 		var terrs []string
 		conf := types.Config{Importer: imp, Error: func(err error) { terrs = append(terrs, err.Error()) }}
@@ -674,7 +735,7 @@ func main() {
 			r := &rw{
 				fset: fset, src: srcs[names[i]], info: info, pkg: pkg, file: af,
 				fname: filepath.Base(names[i]), dense: denseSet[rel],
-				labels: map[ast.Node]string{}, needPt: map[ast.Stmt]bool{},
+				labels: map[ast.Node]string{}, needPt: map[ast.Stmt]bool{}, inList: map[ast.Stmt]bool{},
 				counts: map[string]int{}, pkgUses: map[*types.PkgName]int{}, pkgRepl: map[*types.PkgName]int{},
 			}
 			out := r.rewriteFile()
